@@ -28,7 +28,7 @@ for d in sorted(os.listdir(os.path.join(V, 'seeded'))):
     dwo = grab(r'DEMO without change:\s*(.*)', conf)
     pid = d.split('_')[0]
     exit_code = grab(r'CHECK %s exit=(\d+)' % pid, det)
-    viol = re.findall(r'VIOLATION property=\S+ replay=\S*/(\S+?)\.json( no-failing-input-found)?', det)
+    viol = re.findall(r'VIOLATION property=\S+ replay=\S*/(\S+)\.json( no-failing-input-found)?', det)
     und = re.findall(r'UNDECIDED property=\S+ (.*)', det)
     via = []
     for name, nf in viol:
